@@ -177,7 +177,17 @@ def r18_2(ctx):
             t = n.targets[0] if isinstance(n, ast.Assign) else n.target
             if isinstance(t, ast.Name) and n.value is not None and U(n.value) in ("dict()", "{}"):
                 res_name = t.id
-    ctx.need(res_name, "result dictionary not found in Parser.parse")
+    if res_name is None:
+        # which container do the task results go into?  it has to be created by this very call
+        rets0 = [n for n in ast.walk(fn) if isinstance(n, ast.Return) and isinstance(n.value, ast.Name)]
+        cand = rets0[0].value.id if rets0 else None
+        params = {a.arg for a in fn.args.args + fn.args.kwonlyargs}
+        origin = "a parameter (a default value is shared by all calls)" if cand in params else "not created in this call"
+        ctx.check("the result dictionary is created by this call", False, "result = dict() inside parse()", f"`{cand}` is {origin}: entries of earlier calls stay in it", fn_where(idx, fi))
+        ctx.need(cand, "result dictionary not found in Parser.parse")
+        res_name = cand
+    else:
+        ctx.check("the result dictionary is created by this call", True, "result = dict() inside parse()", f"`{res_name}` = dict()", fn_where(idx, fi), nontrivial=False)
     fors = [n for s in w.body for n in ast.walk(s) if isinstance(n, ast.For) and any(x is pc for x in ast.walk(n.iter))]
     ctx.check("results are consumed inside the pool's lifetime", len(fors) == 1, "for res in ...pool.imap(...) inside the with block", f"{len(fors)} consuming loops inside the with block", fn_where(idx, fi))
     if fors:
